@@ -171,3 +171,12 @@ Qed.
 
 Lemma tgt_ok_mono : forall g g' T x, links_le g g' -> tgt_ok g T x -> tgt_ok g' T x.
 Proof. intros. destruct T; simpl in *. eapply reach_mono; eauto. eapply to_nil_mono; eauto. Qed.
+
+Lemma path1_reach : forall g p cur, path1 g p cur -> reach g p cur.
+Proof. intros g p cur (r & A & B). eapply reach_left; eauto. Qed.
+
+Lemma path1_mono : forall g g' p cur, links_le g g' -> path1 g p cur -> path1 g' p cur.
+Proof. intros g g' p cur L (r & A & B). exists r. split. eapply fwd_mono; eauto. eapply reach_mono; eauto. Qed.
+
+Lemma path1_right : forall g p cur c, path1 g p cur -> fwd g cur c -> path1 g p c.
+Proof. intros g p cur c (r & A & B) F. exists r. split; auto. eapply reach_right; eauto. Qed.
